@@ -747,7 +747,7 @@ class GraphQLDefaultInput:  # noqa: PLW1641
     value: Any
     literal: ConstValueNode | None
 
-    __slots__ = "_memoized_coerced_value", "literal", "value"
+    __slots__ = "_memoized_coerced_value", "_memoized_type", "literal", "value"
 
     def __init__(
         self, value: Any = Undefined, literal: ConstValueNode | None = None
@@ -757,6 +757,7 @@ class GraphQLDefaultInput:  # noqa: PLW1641
         # Used to memoize the result of coercing the default value (see
         # coerce_default_value() in the utilities).
         self._memoized_coerced_value: Any = Undefined
+        self._memoized_type: Any = None  # the type the value was coerced for
 
     def __eq__(self, other: object) -> bool:
         return self is other or (
